@@ -529,6 +529,38 @@ theorem fallback (cfg : Cfg) (mmap : Bool) (plugin : Bytes → BitVec 32 → Boo
   unfold openReader
   simp only [hi]
 
+/-- **Fallback, writer side.** `OpenWriter` (its `loadSnapshots`) walks oldest → newest: when the newest file is
+rejected with an error and the one before it loads, the writer comes up on that older snapshot — the error of the
+newest file is not the result. Any number of still older files (loadable or not) may precede them. -/
+theorem fallback_writer (cfg : Cfg) (mmap : Bool) (plugin : Bytes → BitVec 32 → Bool) (segExists : BitVec 64 → Bool)
+    (oldest : List Bytes) (intact damaged : Bytes) (e : Err) (ss : List (Seg R))
+    (hsafe : ∀ f ∈ oldest, (loadFull ro cfg mmap plugin segExists f).safe = true)
+    (hi : loadFull ro cfg mmap plugin segExists intact = .ok ss)
+    (hd : loadFull ro cfg mmap plugin segExists damaged = .error e) :
+    openWriterSnap ro cfg mmap plugin segExists (oldest ++ [intact, damaged]) = .ok (some (oldest.length, ss)) := by
+  have hwalk : ∀ (l : List Bytes) (i : Nat) (acc : Option (Nat × List (Seg R))),
+      (∀ f ∈ l, (loadFull ro cfg mmap plugin segExists f).safe = true) →
+      writerWalk ro cfg mmap plugin segExists (l ++ [intact, damaged]) i acc = .ok (some (i + l.length, ss)) := by
+    intro l
+    induction l with
+    | nil =>
+      intro i acc _
+      simp only [List.nil_append, writerWalk, hi, hd, List.length_nil, Nat.add_zero]
+    | cons f rest ih =>
+      intro i acc hs
+      have hf := hs f (by simp)
+      have hr : ∀ g ∈ rest, (loadFull ro cfg mmap plugin segExists g).safe = true := fun g hg => hs g (by simp [hg])
+      simp only [List.cons_append, writerWalk, List.length_cons]
+      cases hl : loadFull ro cfg mmap plugin segExists f with
+      | ok x => simp only; rw [ih (i + 1) _ hr]; congr 3; omega
+      | error x => simp only; rw [ih (i + 1) _ hr]; congr 3; omega
+      | panic x => rw [hl] at hf; cases hf
+      | alloc x n => rw [hl] at hf; cases hf
+      | fault x => rw [hl] at hf; cases hf
+  unfold openWriterSnap
+  rw [hwalk oldest 0 none hsafe]
+  simp
+
 /-- with the repairs, loading a file never does anything but succeed or return an error, so the walk
 always reaches the first loadable file -/
 theorem fallback_guarded (mmap : Bool) (plugin : Bytes → BitVec 32 → Bool) (segExists : BitVec 64 → Bool)
@@ -674,6 +706,11 @@ the hash reader against the last 4 bytes (copied or not before the close: `curre
 plugin and segment file per segment -/
 theorem gen_script_loader :
     BlugeGen.C12.loadSnapshot = Script.loadSnapshot currentCfg.crcCopy currentCfg.lengthChecked := rfl
+
+/-- the writer's walk: `loadSnapshots` = `writerWalk`/`openWriterSnap` — oldest → newest, `continue` past a file that
+does not load, fail only when files were found and none loaded, and otherwise return `nil` (not the named result
+`err`, which at that point still holds the outcome of the newest file) -/
+theorem gen_script_writer_walk : BlugeGen.C12.loadSnapshots = Script.loadSnapshots := rfl
 
 set_option maxRecDepth 8192 in
 /-- the tables do distinguish the pinned from the repaired code (the obligation above is not vacuous in the switch) -/
